@@ -55,6 +55,9 @@ def token_map(M, prod, node):
 
 def run(report, index, tier):
     M = models(index)
+    from .c20 import guard_tokens, guard_transcriptions
+    guard_tokens(report, index, M)
+    guard_transcriptions(index, M, report, depth=2)
     g, A, lm = M.grammar, M.actions, M.lexmodel
     report.explanation = (
         'For every production/definition pair the token map that '
